@@ -710,16 +710,139 @@ class _DesugarMatch(ast.NodeTransformer):
         return out
 
 
+_INIT_LIKE = {"__init__", "__post_init__", "__setstate__", "__new__"}
+
+
+def _unalias_fields(tree: ast.Module) -> int:
+    """`table = self._cache_dict` ... `table[key]` -> `self._cache_dict[key]`.
+
+    A local name that is bound exactly once in a method, to an attribute of `self` that no method of the module rebinds after
+    construction, is another spelling of that attribute for the whole method: the rules that ask which fields a method reads,
+    writes or locks see the field.  Nothing else is touched (parameters, names bound twice, loop / with / except targets,
+    attributes that some method rebinds, methods that rebind `self`)."""
+    rebound: set[str] = set()
+    for cls in [c for c in ast.walk(tree) if isinstance(c, ast.ClassDef)]:
+        for m in [m for m in cls.body if isinstance(m, (ast.FunctionDef, ast.AsyncFunctionDef))]:
+            for x in ast.walk(m):
+                if isinstance(x, ast.Attribute) and isinstance(x.ctx, (ast.Store, ast.Del)) and isinstance(x.value, ast.Name) and x.value.id == "self" and m.name not in _INIT_LIKE:
+                    rebound.add(x.attr)
+                if isinstance(x, ast.Call) and isinstance(x.func, ast.Name) and x.func.id in ("setattr", "delattr"):
+                    return 0  # attributes are written by computed name somewhere in this module: nothing is known to be stable
+    n = 0
+    for cls in [c for c in ast.walk(tree) if isinstance(c, ast.ClassDef)]:
+        for m in [m for m in cls.body if isinstance(m, (ast.FunctionDef, ast.AsyncFunctionDef))]:
+            if not m.args.args or m.args.args[0].arg != "self" or m.name in _INIT_LIKE:
+                continue
+            params = {a.arg for a in m.args.args + m.args.kwonlyargs + m.args.posonlyargs} | ({m.args.vararg.arg} if m.args.vararg else set()) | ({m.args.kwarg.arg} if m.args.kwarg else set())
+            stores: dict[str, int] = {}
+            for x in ast.walk(m):
+                if isinstance(x, ast.Name) and isinstance(x.ctx, (ast.Store, ast.Del)):
+                    stores[x.id] = stores.get(x.id, 0) + 1
+                elif isinstance(x, (ast.Global, ast.Nonlocal)):
+                    for nm in x.names:
+                        stores[nm] = stores.get(nm, 0) + 2
+                elif isinstance(x, (ast.FunctionDef, ast.AsyncFunctionDef, ast.ClassDef)) and x is not m:
+                    stores[x.name] = stores.get(x.name, 0) + 2
+                    for a in x.args.args + x.args.kwonlyargs + x.args.posonlyargs if not isinstance(x, ast.ClassDef) else []:
+                        stores[a.arg] = stores.get(a.arg, 0) + 2  # shadowed in a nested function
+                elif isinstance(x, ast.Lambda):
+                    for a in x.args.args + x.args.kwonlyargs + x.args.posonlyargs:
+                        stores[a.arg] = stores.get(a.arg, 0) + 2
+                elif isinstance(x, ast.ExceptHandler) and x.name:
+                    stores[x.name] = stores.get(x.name, 0) + 2
+            if stores.get("self"):
+                continue
+            alias: dict[str, ast.Attribute] = {}
+            for st in ast.walk(m):
+                if not (isinstance(st, ast.Assign) and len(st.targets) == 1):
+                    continue
+                pairs: list[tuple[ast.AST, ast.AST]] = []
+                t, v = st.targets[0], st.value
+                if isinstance(t, ast.Name):
+                    pairs = [(t, v)]
+                elif isinstance(t, ast.Tuple) and isinstance(v, ast.Tuple) and len(t.elts) == len(v.elts) and all(isinstance(e, ast.Name) for e in t.elts):
+                    pairs = list(zip(t.elts, v.elts))
+                for tn, tv in pairs:
+                    if (isinstance(tn, ast.Name) and stores.get(tn.id) == 1 and tn.id not in params and isinstance(tv, ast.Attribute) and isinstance(tv.value, ast.Name)
+                            and tv.value.id == "self" and tv.attr not in rebound):
+                        alias[tn.id] = tv
+            if not alias:
+                continue
+
+            class _Sub(ast.NodeTransformer):
+                def visit_Name(self, node: ast.Name):  # noqa: N802
+                    if isinstance(node.ctx, ast.Load) and node.id in alias:
+                        return ast.copy_location(ast.Attribute(value=ast.Name(id="self", ctx=ast.Load()), attr=alias[node.id].attr, ctx=ast.Load()), node)
+                    return node
+
+                def visit_Assign(self, node: ast.Assign):  # noqa: N802
+                    # the binding itself touches nothing: drop it (or the aliased slots of a tuple assignment)
+                    t = node.targets[0]
+                    if len(node.targets) == 1 and isinstance(t, ast.Name) and t.id in alias and node.value is alias[t.id]:
+                        return ast.copy_location(ast.Pass(), node)
+                    if len(node.targets) == 1 and isinstance(t, ast.Tuple) and isinstance(node.value, ast.Tuple) and any(isinstance(e, ast.Name) and alias.get(e.id) is v_ for e, v_ in zip(t.elts, node.value.elts)):
+                        keep = [(e, v_) for e, v_ in zip(t.elts, node.value.elts) if not (isinstance(e, ast.Name) and alias.get(e.id) is v_)]
+                        if not keep:
+                            return ast.copy_location(ast.Pass(), node)
+                        if len(keep) == 1:
+                            new = ast.Assign(targets=[keep[0][0]], value=self.visit(keep[0][1]))
+                        else:
+                            new = ast.Assign(targets=[ast.Tuple(elts=[k for k, _ in keep], ctx=ast.Store())], value=ast.Tuple(elts=[self.visit(v_) for _, v_ in keep], ctx=ast.Load()))
+                        return ast.copy_location(new, node)
+                    return self.generic_visit(node)
+
+            m.body = [_Sub().visit(st) for st in m.body]
+            ast.fix_missing_locations(m)
+            n += len(alias)
+    return n
+
+
+class _SplitTupleAssign(ast.NodeTransformer):
+    """`a, b = f(x), True` -> `a = f(x); b = True` when that is the same program: every value after the first is a constant or a
+    plain local name that is not one of the targets (so it reads the same whether evaluated before or after the first store), and
+    no value names a target.  Path rules then see which statement stores what, and that it happens after the call returned."""
+
+    def __init__(self) -> None:
+        self.count = 0
+
+    def visit_Assign(self, node: ast.Assign):  # noqa: N802
+        t = node.targets[0]
+        if len(node.targets) != 1 or not isinstance(t, ast.Tuple) or not isinstance(node.value, ast.Tuple) or len(t.elts) != len(node.value.elts) or len(t.elts) < 2:
+            return node
+        if any(isinstance(e, ast.Starred) for e in t.elts + node.value.elts):
+            return node
+        # only worth it when a value is a call: `a, b = x, y` is read as it stands by Defs and the other engines
+        if not any(isinstance(x, ast.Call) for x in ast.walk(node.value.elts[0])) or any(isinstance(x, (ast.Call, ast.Await, ast.Yield, ast.YieldFrom, ast.NamedExpr)) for v in node.value.elts[1:] for x in ast.walk(v)):
+            return node
+        target_txt = {ast.unparse(e) for e in t.elts}
+        for v in node.value.elts[1:]:
+            if not isinstance(v, (ast.Constant, ast.Name)):
+                return node
+            if isinstance(v, ast.Name) and v.id in target_txt:
+                return node
+        if any(ast.unparse(x) in target_txt for v in node.value.elts for x in ast.walk(v) if isinstance(x, (ast.Name, ast.Attribute, ast.Subscript))):
+            return node
+        self.count += 1
+        return [ast.copy_location(ast.Assign(targets=[e], value=v), node) for e, v in zip(t.elts, node.value.elts)]
+
+
 def normalise(trees: dict[str, ast.Module]) -> dict:
     """Inline unknown private helpers in place; returns statistics (empty when there is no table)."""
     n_match = 0
+    n_alias = 0
+    n_split = 0
     for name, tree in trees.items():
         dm = _DesugarMatch()
         trees[name] = dm.visit(tree)
         n_match += dm.count
+        n_alias += _unalias_fields(trees[name])
+        sp = _SplitTupleAssign()
+        trees[name] = sp.visit(trees[name])
+        ast.fix_missing_locations(trees[name])
+        n_split += sp.count
     known = load_known()
     if known is None:
-        return {"match_desugared": n_match}
+        return {"match_desugared": n_match, "field_aliases": n_alias, "tuple_assigns_split": n_split}
     inl = Inliner(trees, known)
     inl.run()
-    return {**inl.stats, "match_desugared": n_match, "dropped": inl.dropped, "log": inl.log[:200]}
+    return {**inl.stats, "match_desugared": n_match, "field_aliases": n_alias, "tuple_assigns_split": n_split, "dropped": inl.dropped, "log": inl.log[:200]}
